@@ -541,7 +541,58 @@ def r12_width_free(c, facts, rule='C13.R12'):
         c.ok(R, {'digest': 'fixed-width integers only', 'conversions': n})
 
 
+def r13_lex_errors_reported(c, facts, rule='C13.R13'):
+    """a character that starts no token makes every front end fail: the error of the lexer is put on the error list in the
+    same iteration - not kept aside for a later token that may never come (the last bytes of a text)"""
+    R = c.rule(rule, 'LEX-REPORTED: every lexical error is pushed onto the error list before the next token is read or the loop ends')
+    tk = c.anchor(R, 'oal_syntax::lexer::tokenize')
+    nx = [(b, t) for b, t in P.call_blocks(tk, 'Iterator::next') if any(k in (t['args'][0].get('ty', '') if t['args'] else '') for k in ('logos', 'Lexer', 'Spanned'))]
+    pushes = {b for b, t in P.call_blocks(tk, 'Vec::push') if 'ParserError' in (t['args'][0].get('ty', '') if t['args'] else '')}
+    # ... or a call of a closure / private helper that does the push (`let mut report = |range| errors.push(..)`)
+    pushers = set()
+    for g in list(facts.closures_of(tk)) + [f for f in facts.fns.values() if f.mir and f.qname.startswith('oal_syntax::lexer::') and f.id != tk.id]:
+        if g.mir and any('ParserError' in (t['args'][0].get('ty', '') if t['args'] else '') for b, t in P.call_blocks(g, 'Vec::push')):
+            pushers.add(g.id)
+    for b, t in tk.calls():
+        info = callee_of(t)
+        tid = (info or {}).get('resolved_id') or (info or {}).get('id')
+        if tid in pushers:
+            pushes.add(b)
+        elif info and P.strip(info['def']).split('::')[-1] in ('call_mut', 'call', 'call_once') and any(p.split('::{closure')[0] == tk.id.split('::{closure')[0] for p in pushers if '{closure' in p):
+            a0 = t['args'][0].get('ty', '') if t['args'] else ''
+            if 'closure' in a0:
+                pushes.add(b)
+    if not nx or not pushes:
+        c.bad(R, 'tokenize:shape', 'tokenize: cannot find the loop over the lexer or the error list')
+        return
+    nb = nx[0][0]
+    idx = MF.defs_index(tk)
+    err_edges = []
+    for b, blk in tk.blocks():
+        sw = blk['term']
+        if sw['t'] != 'switch' or 'l' not in sw['discr']:
+            continue
+        # the switch on the Result the lexer yields (its discriminant is read from the item of next())
+        tys = [st['rv']['place'].get('ty', '') for st in blk['stmts'] if st['s'] == 'assign' and st['rv']['r'] == 'discr' and st['place']['l'] == sw['discr']['l']]
+        if not any(re.match(r'(std::result::|core::result::)?Result<', x) and 'TokenKind' in x for x in tys):
+            continue
+        ee = P.enum_edges(sw)
+        if '1' in ee:
+            err_edges.append(ee['1'])
+    c.floor(R, 'switches on the lexer result', len(err_edges), 1)
+    late = False
+    for e in err_edges:
+        reach = tk.reachable_from(e, avoid=pushes)
+        if nb in reach or any(tk.mir['blocks'][x]['term']['t'] == 'return' for x in reach):
+            late = True
+    if late:
+        c.bad(R, 'tokenize:lexical-error-not-pushed-at-once', 'tokenize can go on to the next token, or finish, without having pushed the lexical error it just met: an invalid character at the very end of a text is accepted by every front end')
+    else:
+        c.ok(R, {'tokenize': 'an Err item is pushed onto the error list in its own iteration', 'sites': len(err_edges)})
+
+
 def run(c, facts):
+    c.run(r13_lex_errors_reported, facts)
     c.run(r12_width_free, facts)
     c.run(r11_located, facts)
     c.run(r9_location_free, facts)
